@@ -322,6 +322,109 @@ Proof.
       intros [A B]; split; [exact A | lia].
 Qed.
 
+(* the converted argument of an integer conversion and what fmt prints for it *)
+Lemma int_arg_print chars ffmt d wv pv a v :
+  is_int_conv (d_conv d) = true -> awk_int (v_num a) = Some v ->
+  (conv_ty (d_conv d) = TyU -> - two63 <= v < two64) ->
+  int_ok d (resolve d wv pv) v ->
+  exists g, conv_arg chars ffmt (conv_ty (d_conv d)) a = Ok g /\
+    forall f, st_matches f (resolve d wv pv) ->
+      print_arg f g (go_conv_byte (d_conv d)) = Ok (c_directive chars d wv pv (AInt v)).
+Proof.
+  intros Hic Ha Hu Hok. unfold c_directive, int_ok in *.
+  assert (Sg : exists g, conv_arg chars ffmt TyD a = Ok g /\
+            forall f r, st_matches f r -> ~ (r_prec r = Some 0 /\ v = 0 /\ r_plus r || r_space r = true) ->
+              print_arg f g 100 = Ok (c_signed r v)).
+  { destruct (Z_le_dec (- two63) v) as [L|L]; [destruct (Z_lt_dec v two63) as [U|U]|].
+    - exists (GInt v). split; [apply conv_arg_d_in_range; [exact Ha | lia]|].
+      intros f r Hst Hk. cbn [print_arg int_verb Z.eqb Pos.eqb orb]. rewrite (fmt_integer_signed f _ v Hst Hk). reflexivity.
+    - exists (GBig v). split; [apply conv_arg_d_big; [exact Ha | lia]|].
+      intros f r Hst Hk. cbn [print_arg Z.eqb Pos.eqb orb]. rewrite (big_format_signed f _ v Hst); [reflexivity | unfold two63 in *; lia].
+    - exists (GBig v). split; [apply conv_arg_d_big; [exact Ha | lia]|].
+      intros f r Hst Hk. cbn [print_arg Z.eqb Pos.eqb orb]. rewrite (big_format_signed f _ v Hst); [reflexivity | unfold two63 in *; lia]. }
+  destruct (d_conv d) eqn:EC; try discriminate; cbn [conv_ty go_conv_byte] in *.
+  - destruct Sg as (g & G1 & G2). exists g. split; [exact G1|]. intros f Hst. apply G2; assumption.
+  - destruct Sg as (g & G1 & G2). exists g. split; [exact G1|]. intros f Hst. apply G2; assumption.
+  - exists (GUint (v mod two64)). split; [apply conv_arg_u; [exact Ha | exact (Hu eq_refl)]|].
+    intros f Hst. cbn [print_arg int_verb Z.eqb Pos.eqb orb]. rewrite (fmt_integer_o f _ v Hst Hok). reflexivity.
+  - exists (GUint (v mod two64)). split; [apply conv_arg_u; [exact Ha | exact (Hu eq_refl)]|].
+    intros f Hst. cbn [print_arg int_verb Z.eqb Pos.eqb orb]. rewrite (fmt_integer_u f _ v Hst Hok). reflexivity.
+  - exists (GUint (v mod two64)). split; [apply conv_arg_u; [exact Ha | exact (Hu eq_refl)]|].
+    intros f Hst. cbn [print_arg int_verb Z.eqb Pos.eqb orb]. rewrite (fmt_integer_x f _ v Hst Hok). reflexivity.
+  - exists (GUint (v mod two64)). split; [apply conv_arg_u; [exact Ha | exact (Hu eq_refl)]|].
+    intros f Hst. cbn [print_arg int_verb Z.eqb Pos.eqb orb]. rewrite (fmt_integer_X f _ v Hst Hok). reflexivity.
+Qed.
+
+(* ---- one directive, any conversion: sprintf = pre ++ (what fmt prints for the converted
+        argument under the state of the effective directive) ++ post ---- *)
+Lemma eff_wf_lim d wv pv : wf_dir d = true -> lim d wv pv ->
+  wf_dir (eff_dir d pv) = true /\ in_lim (eff_dir d pv) wv (eff_pv d pv) /\ d_conv (eff_dir d pv) = d_conv d.
+Proof.
+  intros Hwf [L1 L2]. destruct d as [fl w p cv]. unfold eff_dir, eff_pv, in_lim, set_dprec, wf_dir in *.
+  cbn [d_flags d_width d_prec d_conv] in *.
+  destruct p as [|ds|]; cbn [d_flags d_width d_prec d_conv].
+  - destruct (is_g cv); cbn [d_flags d_width d_prec d_conv].
+    + split; [|split; [split; [exact L1 | vm_compute; discriminate] | reflexivity]].
+      apply andb_true_iff in Hwf as [H _]. rewrite H. reflexivity.
+    + split; [exact Hwf | split; [split; assumption | reflexivity]].
+  - split; [exact Hwf | split; [split; assumption | reflexivity]].
+  - destruct (pv <? 0) eqn:EN; cbn [andb].
+    + destruct (is_float_conv cv); cbn [negb d_flags d_width d_prec d_conv].
+      * split; [exact Hwf | split; [split; [exact L1 | lia] | reflexivity]].
+      * split; [|split; [split; [exact L1 | exact I] | reflexivity]].
+        apply andb_true_iff in Hwf as [H _]. rewrite H. reflexivity.
+    + apply Z.ltb_ge in EN. cbn [d_flags d_width d_prec d_conv]. split; [exact Hwf | split; [split; [exact L1 | lia] | reflexivity]].
+Qed.
+
+Theorem sprintf_dir_eff chars ffmt d pre post aw ap a extra wv pv g out :
+  wf_dir d = true -> no_pct pre = true -> no_pct post = true -> lim d wv pv ->
+  (d_width d = WStar -> awk_int (v_num aw) = Some wv) ->
+  (d_prec d = PrStar -> awk_int (v_num ap) = Some pv) ->
+  conv_arg chars ffmt (conv_ty (d_conv d)) a = Ok g ->
+  (forall f, st_matches f (resolve (eff_dir d pv) wv (eff_pv d pv)) ->
+             print_arg f g (go_conv_byte (d_conv d)) = Ok out) ->
+  sprintf chars ffmt (pre ++ render d ++ post) (args_for d aw ap a extra) = Ok (pre ++ out ++ post).
+Proof.
+  intros Hwf Hpre Hpost Hlim Hw Hp Hg Hpr.
+  unfold sprintf. rewrite (parse_render d pre post Hwf Hpre Hpost).
+  assert (Hw' : d_width d = WStar -> conv_arg chars ffmt TyD aw = Ok (GInt wv)).
+  { intros E. apply conv_arg_d_in_range; [exact (Hw E)|]. destruct Hlim as [L _]. rewrite E in L. unfold two63. lia. }
+  assert (Hp' : d_prec d = PrStar -> f2i64 (v_num ap) = pv).
+  { intros E. apply f2i64_awk_int; [exact (Hp E)|]. destruct Hlim as [_ L]. rewrite E in L. unfold two63 in *. lia. }
+  destruct (conv_args_render chars ffmt d aw ap a extra wv pv g pre post Hw' Hp' Hg) as [Hca Hlen].
+  rewrite Hlen, Hca. cbn [rbind fst snd].
+  destruct (eff_wf_lim d wv pv Hwf Hlim) as (Ewf & Elim & Ecv).
+  destruct (go_sprintf_tail (eff_dir d pv) wv (eff_pv d pv) (go_conv_byte (d_conv d)) g pre post
+              Ewf Elim (go_conv_byte_ok _) Hpre Hpost) as (f & Hst & Hgo).
+  rewrite Hgo. rewrite (Hpr f Hst). reflexivity.
+Qed.
+
+(* ---- e E f g G of an infinity or NaN ---- *)
+Theorem sprintf_nonfinite_agree chars ffmt d pre post aw ap a extra wv pv x :
+  wf_dir d = true -> is_float_conv (d_conv d) = true ->
+  no_pct pre = true -> no_pct post = true -> lim d wv pv ->
+  (d_width d = WStar -> awk_int (v_num aw) = Some wv) ->
+  (d_prec d = PrStar -> awk_int (v_num ap) = Some pv) ->
+  v_num a = x -> (match x with FFin _ _ => False | _ => True end) ->
+  sprintf chars ffmt (pre ++ render d ++ post) (args_for d aw ap a extra)
+  = Ok (pre ++ c_directive chars d wv pv (ANonFin x) ++ post).
+Proof.
+  intros Hwf Hfc Hpre Hpost Hlim Hw Hp Hx Hnf.
+  apply (sprintf_dir_eff chars ffmt d pre post aw ap a extra wv pv (GNonFinite x)); try assumption.
+  - destruct (d_conv d); try discriminate; cbn [conv_ty conv_arg]; rewrite Hx; destruct x; try contradiction; reflexivity.
+  - intros f Hst. cbn [print_arg]. rewrite (nf_format_nonfinite f _ x _ Hst Hnf).
+    (* the specification of non-finite values does not look at the precision *)
+    assert (E : forall r r' up, r_minus r = r_minus r' -> r_plus r = r_plus r' -> r_space r = r_space r' ->
+                r_zero r = r_zero r' -> r_width r = r_width r' -> c_nonfinite r x up = c_nonfinite r' x up).
+    { intros r r' up A B C D W. unfold c_nonfinite, c_field. rewrite A, B, C, D, W. reflexivity. }
+    unfold c_directive.
+    assert (R : forall up, c_nonfinite (resolve (eff_dir d pv) wv (eff_pv d pv)) x up = c_nonfinite (resolve d wv pv) x up).
+    { intros up. apply E; destruct d as [fl w p cv]; unfold eff_dir, eff_pv, resolve, set_dprec; cbn [d_flags d_width d_prec d_conv];
+        destruct p; try reflexivity; try (destruct (is_g cv); reflexivity);
+        destruct ((pv <? 0) && negb (is_float_conv cv)); reflexivity. }
+    rewrite R. destruct (d_conv d); try discriminate; reflexivity.
+Qed.
+
 Theorem sprintf_int_agree chars ffmt d pre post aw ap a extra wv pv v :
   wf_dir d = true -> is_int_conv (d_conv d) = true ->
   no_pct pre = true -> no_pct post = true ->
@@ -335,46 +438,9 @@ Theorem sprintf_int_agree chars ffmt d pre post aw ap a extra wv pv v :
   = Ok (pre ++ c_directive chars d wv pv (AInt v) ++ post).
 Proof.
   intros Hwf Hic Hpre Hpost Hlim Hw Hp Ha Hu Hok.
-  unfold sprintf. rewrite (parse_render d pre post Hwf Hpre Hpost).
-  assert (Hw' : d_width d = WStar -> conv_arg chars ffmt TyD aw = Ok (GInt wv)).
-  { intros E. apply conv_arg_d_in_range; [exact (Hw E)|]. destruct Hlim as [L _]. rewrite E in L. unfold two63. lia. }
-  assert (Hp' : d_prec d = PrStar -> f2i64 (v_num ap) = pv).
-  { intros E. apply f2i64_awk_int; [exact (Hp E)|]. destruct Hlim as [_ L]. rewrite E in L. unfold two63 in *. lia. }
+  destruct (int_arg_print chars ffmt d wv pv a v Hic Ha Hu Hok) as (g & Hg & Hpr).
   assert (Hfl : is_float_conv (d_conv d) = false /\ is_g (d_conv d) = false) by (destruct (d_conv d); try discriminate; split; reflexivity).
-  destruct Hfl as [Hfl Hgg].
-  destruct (resolve_eff d wv pv Hfl Hgg) as (Ewf & Ecv & Eres & Elim).
-  (* the converted argument and what fmt prints for it *)
-  assert (G : exists g, conv_arg chars ffmt (conv_ty (d_conv d)) a = Ok g /\
-              forall f, st_matches f (resolve d wv pv) ->
-                print_arg f g (go_conv_byte (d_conv d)) = Ok (c_directive chars d wv pv (AInt v))).
-  { unfold c_directive, int_ok in *.
-    destruct (d_conv d) eqn:EC; try discriminate; cbn [conv_ty go_conv_byte] in *.
-    - destruct (Z_le_dec (- two63) v) as [L|L]; [destruct (Z_lt_dec v two63) as [U|U]|].
-      + exists (GInt v). split; [apply conv_arg_d_in_range; [exact Ha | lia]|].
-        intros f Hst. cbn [print_arg int_verb Z.eqb Pos.eqb orb]. rewrite (fmt_integer_signed f _ v Hst Hok). reflexivity.
-      + exists (GBig v). split; [apply conv_arg_d_big; [exact Ha | lia]|].
-        intros f Hst. cbn [print_arg Z.eqb Pos.eqb orb]. rewrite (big_format_signed f _ v Hst); [reflexivity | unfold two63 in *; lia].
-      + exists (GBig v). split; [apply conv_arg_d_big; [exact Ha | lia]|].
-        intros f Hst. cbn [print_arg Z.eqb Pos.eqb orb]. rewrite (big_format_signed f _ v Hst); [reflexivity | unfold two63 in *; lia].
-    - destruct (Z_le_dec (- two63) v) as [L|L]; [destruct (Z_lt_dec v two63) as [U|U]|].
-      + exists (GInt v). split; [apply conv_arg_d_in_range; [exact Ha | lia]|].
-        intros f Hst. cbn [print_arg int_verb Z.eqb Pos.eqb orb]. rewrite (fmt_integer_signed f _ v Hst Hok). reflexivity.
-      + exists (GBig v). split; [apply conv_arg_d_big; [exact Ha | lia]|].
-        intros f Hst. cbn [print_arg Z.eqb Pos.eqb orb]. rewrite (big_format_signed f _ v Hst); [reflexivity | unfold two63 in *; lia].
-      + exists (GBig v). split; [apply conv_arg_d_big; [exact Ha | lia]|].
-        intros f Hst. cbn [print_arg Z.eqb Pos.eqb orb]. rewrite (big_format_signed f _ v Hst); [reflexivity | unfold two63 in *; lia].
-    - exists (GUint (v mod two64)). split; [apply conv_arg_u; [exact Ha | exact (Hu eq_refl)]|].
-      intros f Hst. cbn [print_arg int_verb Z.eqb Pos.eqb orb]. rewrite (fmt_integer_o f _ v Hst Hok). reflexivity.
-    - exists (GUint (v mod two64)). split; [apply conv_arg_u; [exact Ha | exact (Hu eq_refl)]|].
-      intros f Hst. cbn [print_arg int_verb Z.eqb Pos.eqb orb]. rewrite (fmt_integer_u f _ v Hst Hok). reflexivity.
-    - exists (GUint (v mod two64)). split; [apply conv_arg_u; [exact Ha | exact (Hu eq_refl)]|].
-      intros f Hst. cbn [print_arg int_verb Z.eqb Pos.eqb orb]. rewrite (fmt_integer_x f _ v Hst Hok). reflexivity.
-    - exists (GUint (v mod two64)). split; [apply conv_arg_u; [exact Ha | exact (Hu eq_refl)]|].
-      intros f Hst. cbn [print_arg int_verb Z.eqb Pos.eqb orb]. rewrite (fmt_integer_X f _ v Hst Hok). reflexivity. }
-  destruct G as (g & Hg & Hpr).
-  destruct (conv_args_render chars ffmt d aw ap a extra wv pv g pre post Hw' Hp' Hg) as [Hca Hlen].
-  rewrite Hlen, Hca. cbn [rbind fst snd].
-  destruct (go_sprintf_tail (eff_dir d pv) wv (eff_pv d pv) (go_conv_byte (d_conv d)) g pre post
-              ltac:(rewrite Ewf; exact Hwf) (Elim Hlim) (go_conv_byte_ok _) Hpre Hpost) as (f & Hst & Hgo).
-  rewrite Hgo. rewrite Eres in Hst. rewrite (Hpr f Hst). reflexivity.
+  destruct Hfl as [Hfl Hgg]. destruct (resolve_eff d wv pv Hfl Hgg) as (_ & _ & Eres & _).
+  apply (sprintf_dir_eff chars ffmt d pre post aw ap a extra wv pv g); try assumption.
+  rewrite Eres. exact Hpr.
 Qed.
